@@ -1232,6 +1232,21 @@ impl<'a> St<'a> {
     }
 }
 
+/// Panic message with every run of digits collapsed to one 'N' (sizes and indices must not split signatures).
+fn norm_msg(msg: &str) -> String {
+    let mut out = String::new();
+    for c in msg.chars().take(100) {
+        if c.is_ascii_digit() {
+            if !out.ends_with('N') {
+                out.push('N');
+            }
+        } else {
+            out.push(c);
+        }
+    }
+    out
+}
+
 fn short(s: &str) -> String {
     if s.len() > 48 { format!("{}…[{}]", &s[..40], s.len()) } else { s.to_string() }
 }
@@ -2110,7 +2125,7 @@ fn main() {
             if msg.starts_with("panic in a function that cannot unwind") {
                 return prev(info);
             }
-            let norm: String = msg.chars().take(80).map(|c| if c.is_ascii_digit() { 'N' } else { c }).collect();
+            let norm = norm_msg(&msg);
             eprintln!("C19-PANIC fn={f} handle={l} at={rel} msg={norm}");
         }
         prev(info)
